@@ -104,7 +104,7 @@ def st_cone_for(draw, algo, conf, allow_Kgtm=True, m=None):
 
 
 @st.composite
-def st_run_spec(draw, algo, source=None, K=None, conf=None, allow_Kgtm=True, m=None, batch_max=1, eps=None, contraction=None):
+def st_run_spec(draw, algo, source=None, K=None, conf=None, allow_Kgtm=True, m=None, batch_max=1, eps=None, contraction=None, cone=None):
     from vverif.harness.algos import conf_type
 
     spec = {"algo": algo}
@@ -113,7 +113,7 @@ def st_run_spec(draw, algo, source=None, K=None, conf=None, allow_Kgtm=True, m=N
     elif algo == "PaVeBaPartialGP":
         spec["conf"] = conf or draw(st.sampled_from(["hyperrectangle", "hyperellipsoid"]))
     ct = conf_type(spec)
-    spec["cone"] = draw(st_cone_for(algo, ct, allow_Kgtm, m))
+    spec["cone"] = cone if cone is not None else draw(st_cone_for(algo, ct, allow_Kgtm, m))
     W = cone_matrix(spec["cone"])
     mm = W.shape[1]
     spec["eps"] = eps or float(f"{draw(gen.st_logfloat(0.05, 1.0)):.3g}")
